@@ -472,6 +472,9 @@ func genC15(r *rand.Rand, tier string, idx int) *World {
 	if chance(r, 0.3) {
 		w.Extra["termRestarted"] = "1"
 	}
+	if chance(r, 0.2) {
+		w.Extra["overlap"] = "1"
+	}
 	can := &CanaryDef{Replicas: pick(r, "1", "2", "3", "4", "25%", "50%", "100%"), Duration: "6h"}
 	switch r.IntN(5) {
 	case 0, 1:
@@ -567,6 +570,21 @@ func bodyC15(s *Sim) {
 		if len(biased) > 0 && s.rngEnv.IntN(3) != 0 {
 			pool = biased
 		}
+		overlapping := false
+		if s.W.Extra["overlap"] == "1" && i == 0 && len(s.inflight) == 0 {
+			// two controller instances overlap on the ExtendedDaemonSet: the old one reads everything and is
+			// about to write; the cluster changes ...
+			overlapping = true
+			s.StartReconcile(CtrlEDS, key)
+			for k := 0; k < 1000; k++ {
+				synctest.Wait()
+				p := s.canonicalPending()
+				if len(p) == 0 || p[0].IsWrite() {
+					break
+				}
+				s.grant(p[0], "")
+			}
+		}
 		if len(pool) > 0 {
 			act := pool[s.rngEnv.IntN(len(pool))]
 			s.logf("env %s", act.K)
@@ -576,9 +594,21 @@ func bodyC15(s *Sim) {
 		if s.rngEnv.IntN(2) == 0 {
 			s.Advance(11 * time.Second)
 			for _, r := range s.Store.ERSs() {
-				s.RunTask(CtrlERS, types.NamespacedName{Namespace: r.Namespace, Name: r.Name})
+				if overlapping {
+					s.RunTaskWhileParked(CtrlERS, types.NamespacedName{Namespace: r.Namespace, Name: r.Name})
+				} else {
+					s.RunTask(CtrlERS, types.NamespacedName{Namespace: r.Namespace, Name: r.Name})
+				}
 			}
 			s.settleAll()
+		}
+		if overlapping {
+			// ... a fresh instance takes over and reconciles what has changed (it may re-select); then the
+			// old instance goes on with what it had read
+			s.Zombie()
+			s.RunTaskWhileParked(CtrlEDS, key)
+			s.Drain()
+			s.Stats.NonVacuous["C15.overlapping-instances"]++
 		}
 		if e := s.Store.GetEDS(def.NS, def.Name); e != nil && e.Spec.Strategy.Canary != nil && e.Spec.Strategy.Canary.Replicas != nil && e.Spec.Strategy.Canary.Replicas.Type == intstr.Int && s.rngEnv.IntN(3) == 0 {
 			// the user asks for one more canary node: the selection runs again; or for one less:
